@@ -49,6 +49,50 @@ theorem accept_sound (dt : DType F) (hwf : dt.WF) (j : JVal F) (prev : Option (P
   · cases h
   · exact validate_sound dt hwf _ prev hprev r h
 
+/-! ## lengths of strings are counted in character points
+
+`minchars` / `maxchars` bound the number of code points (`String.length`), not the number of bytes of
+an encoding: the string type accepts exactly the strings of its declared value set, in all three
+entry points. -/
+
+/-- what a string type accepts is the string offered, and its number of code points lies within the limits -/
+theorem string_length_in_chars (minc maxc : Nat) (utf8 : Bool) (v : PVal F) (prev : Option (PVal F)) (r : PVal F)
+    (h : validate (.string minc maxc utf8) v prev = .ok r) :
+    ∃ s, v = .str s ∧ r = .str s ∧ minc ≤ s.length ∧ s.length ≤ maxc := by
+  simp only [validate, conv] at h
+  obtain ⟨s, hs, hr⟩ := map_ok h
+  have hin := (stringCall_sound hs).1
+  simp only [InSet, InSetG] at hin
+  exact ⟨s, (stringCall_sound hs).2, hr, hin.1, hin.2.1⟩
+
+/-- exact characterisation: a string is accepted (and returned as it is) iff it lies in the declared value set -
+`minc ≤ number of code points ≤ maxc`, ASCII only unless `isUTF8`, no NUL - whatever its encoded size -/
+theorem string_accepted_iff (minc maxc : Nat) (utf8 : Bool) (s : String) (prev : Option (PVal F)) :
+    validate (F := F) (.string minc maxc utf8) (.str s) prev = .ok (.str s) ↔
+      InSet (F := F) (.string minc maxc utf8) (.str s) := by
+  constructor
+  · intro h
+    simp only [validate, conv] at h
+    obtain ⟨t, ht, hr⟩ := map_ok h
+    cases hr
+    exact (stringCall_sound ht).1
+  · intro hin
+    simp only [validate, conv, stringCall_idem (F := F) hin]; rfl
+
+/-- the same through the wire (`import_value` then `validate`) -/
+theorem string_wire_length_in_chars (minc maxc : Nat) (utf8 : Bool) (j : JVal F) (prev : Option (PVal F)) (r : PVal F)
+    (h : acceptWire (.string minc maxc utf8) j prev = .ok r) :
+    ∃ s, j = .str s ∧ r = .str s ∧ minc ≤ s.length ∧ s.length ≤ maxc := by
+  unfold acceptWire at h
+  split at h
+  · cases h
+  · rename_i v hv
+    obtain ⟨s, hvs, hr, h1, h2⟩ := string_length_in_chars minc maxc utf8 v prev r h
+    have hd := importValue_denotes (.string minc maxc utf8) j v hv
+    subst hvs
+    cases j <;> simp only [WireDenotes] at hd
+    case str t => subst hd; exact ⟨_, rfl, hr, h1, h2⟩
+
 /-! ## the value accepted is the value offered -/
 
 /-- a value accepted by `validate` denotes the Python value that was offered: numbers numerically
@@ -225,6 +269,27 @@ theorem exTree_gridExact : GridExact exTree := by
 example : validate exTree exResult none = .ok exResult ∧ validate exTree exResult (some exResult) = .ok exResult :=
   validate_idem exTree exTree_wf exTree_gridExact exResult (inSetB_sound _ _ (by decide +kernel))
     (by simp only [exResult, Canon, CanonFields, CanonList]; decide +kernel)
+
+/-- lengths in character points: two characters that need four bytes in UTF-8 are too short for a string type
+with `minchars = 3, maxchars = 4`; four characters (eight bytes) are accepted and returned -/
+example : "äö".length = 2 ∧ "äö".utf8ByteSize = 4 ∧ "äöüß".length = 4 ∧ "äöüß".utf8ByteSize = 8 ∧
+    (match validate (F := Rat) (.string 3 4 true) (.str "äö") none with
+      | .error .range => true
+      | _ => false) = true := by
+  decide +kernel
+
+theorem exString_inSet : InSet (F := Rat) (.string 3 4 true) (.str "äöüß") := inSetB_sound _ _ (by decide +kernel)
+
+example : validate (F := Rat) (.string 3 4 true) (.str "äöüß") none = .ok (.str "äöüß") :=
+  (string_accepted_iff 3 4 true "äöüß" none).2 exString_inSet
+
+example : ∃ s, (PVal.str "äöüß" : PVal Rat) = .str s ∧ (PVal.str "äöüß" : PVal Rat) = .str s ∧ 3 ≤ s.length ∧ s.length ≤ 4 :=
+  string_length_in_chars (F := Rat) 3 4 true _ none _ ((string_accepted_iff 3 4 true "äöüß" none).2 exString_inSet)
+
+example : (match acceptWire (F := Rat) (.string 3 4 true) (.str "äöüß") none, acceptWire (F := Rat) (.string 3 4 true) (.str "€") none with
+    | .ok _, .error .range => true
+    | _, _ => false) = true := by
+  decide +kernel
 
 /-! ## constants of the source -/
 
